@@ -77,6 +77,26 @@ func VerifMatchRow(query *Query, rowBytes []byte, tokenizer ValueTokenizerFunc) 
 	return m.matchRowBytes(rowBytes, newRowMatchScratch(m)), nil
 }
 
+// VerifMatchRowsShared matches a sequence of rows with ONE matcher and ONE
+// scratch, the way a block worker scans a block.
+func VerifMatchRowsShared(query *Query, rows [][]byte, tokenizer ValueTokenizerFunc) ([]bool, error) {
+	rowBloomQuery := query.Bloom
+	if rowBloomQuery == nil {
+		rowBloomQuery = &BloomQuery{}
+	}
+	compiled, err := compileRegexQuery(query.Regex)
+	if err != nil {
+		return nil, err
+	}
+	m := compileRowMatcher(rowBloomQuery, compiled, ".", tokenizer)
+	scratch := newRowMatchScratch(m)
+	out := make([]bool, len(rows))
+	for i, r := range rows {
+		out[i] = m.matchRowBytes(r, scratch)
+	}
+	return out, nil
+}
+
 // VerifReferenceMatchRow is the set-based reference evaluator (tokenizer.go).
 func VerifReferenceMatchRow(query *Query, rowBytes []byte, tokenizer ValueTokenizerFunc) (bool, error) {
 	compiled, err := compileRegexQuery(query.Regex)
